@@ -229,4 +229,13 @@ def rule_r4(ctx):
     return rr
 
 
-RULES = [("C17-R4", rule_r4), ("C17-R1", rule_r1), ("C17-R2", rule_r2), ("C17-R3", rule_r3)]
+def rule_c05ib(ctx):
+    """A block nests one guard per INTERRUPT seen so far, not one per statement: that is what the
+    strict comparison against a refreshed saved counter in _iter_branch guarantees (shared rule
+    C05-IB).  Without it the depth of the output grows with the length of the block (C17-R3)."""
+    from .c05 import rule_ib
+
+    return rule_ib(ctx)
+
+
+RULES = [("C17-R4", rule_r4), ("C17-R1", rule_r1), ("C17-R2", rule_r2), ("C17-R3", rule_r3), ("C05-IB", rule_c05ib)]
